@@ -8,12 +8,36 @@ Open Scope Z_scope.
 (* dt + delta = the documented four steps (replace; whole-month shift with the day clipped;
    one exact duration incl. leapdays; n-th weekday by counting), both failing exactly together.
    Guard wf_rd: relative fields normalised (as every constructed delta is, C03_mk_normalised),
-   absolute year/month/day not 0 (see RdAddThm.add_dt_spec_guard_needed: the code's
-   [self.year or other.year] treats 0 as absent), month in 1..12, weekday MO..SU. *)
+   absolute year / month / day not 0, absolute month in 1..12, weekday MO..SU.
+   - year/month/day = 0 is the open finding F-C03-zero-absolute: the code's `self.year or other.year`
+     silently IGNORES a zero although the documentation says absolute values REPLACE (0 is nowhere
+     documented as "absent"); refuted below (C03_zero_absolute_refuted).
+   - month outside 1..12 and weekday outside 0..6 are outside the DOMAIN (no such month / weekday;
+     weekday objects are MO..SU): code and specification are both defensible there and differ
+     (month=13 alone: the code raises ValueError, the total-month arithmetic of the specification
+     would roll into January), so this is a restriction of the quantifier, not a finding.
+   DECISION on leapdays: the docstring says "if year is a leap year, and the date found is post 28 of
+   february"; code and specification apply leapdays when the month found is AFTER February
+   (`month > 2`).  The two readings differ only when the date found is 29 February itself (code:
+   not applied).  The property text says "applicable leapdays" and the only documented use of
+   leapdays -- the yearday conversion, C03_yearday_spec_full -- needs exactly `month > 2`
+   (yearday 60 = "1 March minus one leap day" = 29 February); we follow that reading and state it
+   here as a decision, not as a finding. *)
 Theorem C03_add_dt_spec : forall d o, wf_rd d = true -> valid_dt o = true ->
   res_opt (add_dt d o) = spec_add d o.
 Proof. exact add_dt_spec. Qed.
 Print Assumptions C03_add_dt_spec.
+
+(* the zero cases outside the guard (finding F-C03-zero-absolute): year=0 / month=0 / day=0 leave
+   the operand unchanged where the documented replacement has no result (year, day) or another one
+   (month 0 + total-month arithmetic = December of the previous year) *)
+Theorem C03_zero_absolute_refuted :
+  exists d1 d2 d3 o,
+    a_year (ab d1) = Some 0 /\ a_month (ab d2) = Some 0 /\ a_day (ab d3) = Some 0 /\
+    add_dt d1 o = Ok o /\ add_dt d2 o = Ok o /\ add_dt d3 o = Ok o /\
+    spec_add d1 o = None /\ spec_add d2 o <> Some o /\ spec_add d3 o = None.
+Proof. exact zero_absolute_refuted. Qed.
+Print Assumptions C03_zero_absolute_refuted.
 
 (* every delta built by the keyword constructor satisfies the normalisation part of the guard *)
 Theorem C03_mk_normalised : forall k d, mk k = Ok d -> norm_rel (rel d) = true.
@@ -64,7 +88,12 @@ Theorem C03_promotion_iff_has_time : forall d o r, add_dt d o = Ok r ->
 Proof. exact promotion_iff_has_time. Qed.
 Print Assumptions C03_promotion_iff_has_time.
 
-(* addition is independent of operand order; subtraction is addition of the negation *)
+(* addition is independent of operand order; subtraction is addition of the negation.
+   NOTE: the next two statements are DEFINITIONAL in the hand model (RdModel.radd := add_dt,
+   rsub d o := add_dt (neg d) o -- they record how the model reads __radd__ / __rsub__); the
+   load-bearing statements are C03_gen_radd_dt / C03_gen_rsub_dt (the translated source of __radd__ /
+   __rsub__ equals these definitions) and C03_sub_spec (dt - d = the documented addition of the
+   field-wise negated delta). *)
 Theorem C03_radd_eq_add : forall d o, radd d o = add_dt d o.
 Proof. exact radd_eq_add. Qed.
 Print Assumptions C03_radd_eq_add.
